@@ -1,4 +1,4 @@
-From NV Require Import Common.Py Spec.PortSpec.
+From NV Require Import Common.Py Spec.PortSpec Model.PortBytes.
 Open Scope Z_scope.
 
 (* DigitalWaveform.from_port / from_ports: rows of the data array, as 0/1 *)
@@ -8,7 +8,10 @@ Inductive c06case :=
            (start count : option Z)                   (* start_index / sample_count *)
            (out : res (list (list Z)))                (* data rows; the element type is checked by the harness *)
            (signals_ok : bool)                        (* signals[i].data == data[:, n-1-i] for every i, dtype as requested *)
-| PortDtype (mask : Z) (out : res Z).                (* get_port_dtype(mask).itemsize * 8 *)
+| PortDtype (mask : Z) (out : res Z)                 (* get_port_dtype(mask).itemsize * 8 *)
+| PortMem (k : nat) (big : bool) (v : Z)             (* one value of a k-byte port, full mask: *)
+          (mem_le mem_be : list Z)                    (* the bytes NumPy holds for it in a '<' and in a '>' array *)
+          (row_le row_be : list Z).                   (* port_to_line_data's row for either array *)
 
 Definition width_of_mask (m : Z) : option nat :=
   if (0 <=? m) && (m <? 256) then Some 8%nat else if (0 <=? m) && (m <? 65536) then Some 16%nat
@@ -49,6 +52,11 @@ Definition c06_spec_ok (c : c06case) : bool :=
                    end
           end
       end
+  | PortMem k big v mem_le mem_be row_le row_be =>
+      (* the memory is what the byte model says, and both arrays unpack to the byte pipeline's row *)
+      list_eqb Z.eqb mem_le (le_bytes k v) && list_eqb Z.eqb mem_be (be_bytes k v)
+      && list_eqb Z.eqb row_le (row_z (pipeline_row big k v))
+      && list_eqb Z.eqb row_be (row_z (pipeline_row big k (be_value mem_be)))
   | PortDtype mask out =>
       match width_of_mask mask, out with
       | Some w, Ok b => b =? Z.of_nat w
